@@ -532,13 +532,18 @@ impl CanonicalizeContextPatternsCache {
 
 			let mut cache = cache.borrow_mut();
 			#[cfg(mathcat_verif)]
-			crate::speech::verif::log_load("patterns", std::path::Path::new(&format!("{}\u{1}{}", block_separator_pref, decimal_separator_pref)),
-					block_separator_pref != cache.block_separator_pref || decimal_separator_pref != cache.decimal_separator_pref);
+			crate::speech::verif::log_load("patterns", std::path::Path::new(&format!("{}\u{1}{}", block_separator_pref, decimal_separator_pref)), false);
+			#[cfg(mathcat_verif)]
+			let verif_patterns_before = Rc::as_ptr(&cache.patterns);
 			if block_separator_pref != cache.block_separator_pref || decimal_separator_pref != cache.decimal_separator_pref {
 				// update the cache
 				cache.patterns = Rc::new( CanonicalizeContextPatterns::new(&block_separator_pref, &decimal_separator_pref) );
 				cache.block_separator_pref = block_separator_pref;
 				cache.decimal_separator_pref = decimal_separator_pref;
+			}
+			#[cfg(mathcat_verif)]
+			if verif_patterns_before != Rc::as_ptr(&cache.patterns) {
+				crate::speech::verif::log_reloaded();
 			}
 			return cache.patterns.clone();
 		})
